@@ -93,3 +93,29 @@ impl SharedState {
         self.cancellation_token.cancel();
     }
 }
+
+/// Verification hook (only with `--cfg azure_guestproxyagent_verif`): the actors report the kind of
+/// every message they are about to handle; a test-installed closure may run at that point.
+#[cfg(azure_guestproxyagent_verif)]
+pub mod verif_actor {
+    use std::sync::Mutex;
+
+    type Hook = Box<dyn FnMut(&'static str, &'static str) + Send>;
+    static TRACE: Mutex<Vec<(&'static str, &'static str)>> = Mutex::new(Vec::new());
+    static HOOK: Mutex<Option<Hook>> = Mutex::new(None);
+
+    pub fn on_message(actor: &'static str, kind: &'static str) {
+        TRACE.lock().unwrap().push((actor, kind));
+        if let Some(h) = HOOK.lock().unwrap().as_mut() {
+            h(actor, kind);
+        }
+    }
+
+    pub fn set_hook(hook: Option<Hook>) {
+        *HOOK.lock().unwrap() = hook;
+    }
+
+    pub fn take_trace() -> Vec<(&'static str, &'static str)> {
+        std::mem::take(&mut *TRACE.lock().unwrap())
+    }
+}
